@@ -83,6 +83,11 @@ func c12EmitRows(out *bufio.Writer, id string, schemas ast.Schemas, stats map[st
 		if len(fo.objs) > 0 {
 			stats["with-foreign-objects"]++
 		}
+		if fo.cyclic && c12MalformedInput(schemas, s) {
+			// would panic on the malformed object before (or instead of) looping: not run, not compared
+			stats["cyclic-and-malformed-skipped"]++
+			continue
+		}
 		if fo.cyclic {
 			stats["predicted-hang"]++
 			v := fmt.Sprintf("FAIL emission-does-not-terminate pkg=%s foreign objects refer to each other in a cycle", s.Package)
